@@ -292,7 +292,8 @@ ORACLES = {"C04": oracle_c04, "C08": oracle_c08, "C10": oracle_c10,
 
 # ------------------------------------------------------------------- driver
 def run_history(case: dict, oracles, after_session=None, chunk: int = 0,
-                short_read: bool = False) -> dict:
+                short_read: bool = False,
+                tolerate_rejected_good: bool = False) -> dict:
     """Run case["hist"]; evaluate the selected oracles after every completed
     session.  Returns the result dict of the runner protocol."""
     hist = case["hist"]
@@ -317,6 +318,7 @@ def run_history(case: dict, oracles, after_session=None, chunk: int = 0,
                 fs, sc:
             hr = dsgen.HistoryRunner(
                 hist, root, pool_factory=lambda ses: simexec.SimPool)
+            hr.tolerate_rejected_good = tolerate_rejected_good
             try:
                 hr.create()
                 if "C08" in oracles and case.get("try_create", True):
